@@ -149,13 +149,17 @@ func c17XMLw(doc string, wsNorm bool) (string, bool) {
 		}
 		switch v := t.(type) {
 		case stdxml.CharData:
-			sb.WriteString("T:")
 			if wsNorm {
-				sb.WriteString(strings.TrimRight(c17Ws(string(v)), " "))
+				t := strings.TrimRight(c17Ws(string(v)), " ")
+				if t == "" {
+					continue
+				}
+				sb.WriteString("T:" + t + "|")
 			} else {
+				sb.WriteString("T:")
 				sb.Write(v)
+				sb.WriteByte('|')
 			}
-			sb.WriteByte('|')
 		case stdxml.StartElement:
 			sb.WriteString("<" + v.Name.Local)
 			for _, a := range v.Attr {
@@ -216,10 +220,10 @@ type c17Dump struct {
 
 var c17PairTables = []string{"EntitiesHtml", "TextRevHtml", "AttrRevHtml", "EntitiesXml", "TextRevXml", "AttrRevXml", "ShortenColorHex", "ShortenColorName",
 	"TagTraits", "AttrTraits", "HashNames.html", "HashNames.css", "HashNames.svg", "Html5Entities", "CssColors"}
-var c17NameTables = []string{"JsMimetypes", "OptionalZeroDimension", "SvgColorAttrs"}
-var c17Classes = []string{"booleanAttrs", "urlAttrs", "rawJustified", "wsInsignificant", "jsMimeTypes", "svgColorAttrs", "lengthUnits", "angleUnits"}
+var c17NameTables = []string{"JsMimetypes", "OptionalZeroDimension", "SvgColorAttrs", "ZeroAngleFuncs", "AngleDimension"}
+var c17Classes = []string{"booleanAttrs", "urlAttrs", "rawJustified", "wsInsignificant", "jsMimeTypes", "svgColorAttrs", "lengthUnits", "angleUnits", "zeroAngleFunctions"}
 var c17Bads = []string{"entitiesHtml", "textRevHtml", "attrRevHtml", "textRevHtmlCovers", "entitiesXml", "textRevXml", "attrRevXml", "colorHex", "colorName", "boolAttrs", "urlAttrs",
-	"rawTags", "blockTags", "jsMimetypes", "zeroUnits", "svgColorAttrs", "hashNames.html", "hashNames.css", "hashNames.svg"}
+	"rawTags", "blockTags", "jsMimetypes", "zeroUnits", "zeroAngleFuncs", "angleDimension", "zeroAngleGuard", "svgColorAttrs", "hashNames.html", "hashNames.css", "hashNames.svg"}
 
 func c17Load() (*c17Dump, error) {
 	lines := []string{}
@@ -571,6 +575,43 @@ func c17Behaviour(c *Ctx, d *c17Dump, x *c17M) {
 			}
 		}
 	}
+	// zeroAngleFuncs: in table ⇔ `0deg` loses its unit inside the function; angleDimension: in table ⇔ (for a unit of
+	// optionalZeroDimension) the zero keeps its unit at the top level of a declaration
+	zf := map[string]bool{}
+	cand = map[string]bool{"translate": true, "scale": true, "hsl": true, "calc": true, "image-set": true, "var": true}
+	for _, n := range d.names["ZeroAngleFuncs"] {
+		zf[n] = true
+		cand[n] = true
+	}
+	for n := range d.class["zeroAngleFunctions"] {
+		cand[n] = true
+	}
+	for _, n := range c17Sorted(cand) {
+		in := "a{x:" + n + "(0deg)}"
+		if out, ok := run("text/css", in); ok {
+			got := out == "a{x:"+n+"(0)}"
+			st.Count("zeroAngleFuncs "+n, got)
+			st.Tag("zeroAngleFunc=" + strconv.FormatBool(zf[n]))
+			if got != zf[n] {
+				diff("zeroAngleFuncs["+n+"]: table says "+strconv.FormatBool(zf[n]), in, out, "")
+			}
+		}
+	}
+	ad := map[string]bool{}
+	for _, n := range d.names["AngleDimension"] {
+		ad[n] = true
+	}
+	for _, n := range d.names["OptionalZeroDimension"] {
+		in := "a{x:0" + n + "}"
+		if out, ok := run("text/css", in); ok {
+			kept := out == in
+			st.Count("angleDimension "+n, kept)
+			st.Tag("angleDimension=" + strconv.FormatBool(ad[n]))
+			if kept != ad[n] {
+				diff("angleDimension["+n+"]: table says "+strconv.FormatBool(ad[n])+" (unit kept at the top level)", in, out, "")
+			}
+		}
+	}
 	// colorAttrMap: in table ⇔ a colour keyword in the attribute is rewritten
 	ca := map[string]bool{}
 	for _, n := range d.names["SvgColorAttrs"] {
@@ -738,6 +779,263 @@ func c17Entities(c *Ctx, d *c17Dump, x *c17M) {
 		}
 	}
 	st.End()
+}
+
+// ---------- stage: every entry in context ----------
+
+// A replacement that is correct in isolation can still complete a reference together with its neighbourhood
+// (`&amp;` + `&num;60;` → `&#60;`; `&lt` + `&semi;` → `&lt;`).  The code guards against that (html.go hasReferenceGlue,
+// parse.replaceEntities' look at the character after `&amp;`), so table entry and guard are only meaning-preserving
+// together: every entry is therefore also run through the minifier inside a set of contexts.
+var c17CtxPrefixes = []string{"", "x", "&", "&amp;", "&AMP;", "&amp", "&lt", "&LT", "&#", "&#x", "&#38;", "&num;", "&amp;&num;", "&not"}
+var c17CtxSuffixes = []string{"", "y", ";", "60;", "x3C;", "lt;", "amp;", "abc", "#60;", "=", " z", "&num;60;", "&semi;", "&equals;"}
+var c17CtxGlue = []string{"&num;", "&semi;", "&equals;", "&amp;", "&AMP;", "&lt;", "&LT;", "&gt;", "&quot;", "&apos;", "&Tab;", "&#35;", "&#59;", "&#38;", "&#60;", "&#61;"}
+
+type c17CtxCand struct {
+	in, out, what string
+	attr          bool
+	model         string
+}
+
+// c17RawAttr extracts the source characters of the title attribute of `<a title=…>` as the minifier wrote it.
+func c17RawAttr(doc string) (string, bool) {
+	i := strings.Index(doc, "title=")
+	if i < 0 {
+		return "", false
+	}
+	r := doc[i+6:]
+	if r == "" {
+		return "", false
+	}
+	if r[0] == '"' || r[0] == '\'' {
+		j := strings.IndexByte(r[1:], r[0])
+		if j < 0 {
+			return "", false
+		}
+		return r[1 : 1+j], true
+	}
+	j := strings.IndexAny(r, " >")
+	if j < 0 {
+		return "", false
+	}
+	return r[:j], true
+}
+
+// c17WsKeepCR: like c17Ws, but a CR (which can only come from a reference: the parser turns a literal one into LF)
+// is kept as a character of its own.
+func c17WsKeepCR(s string) string {
+	parts := strings.Split(s, "\r")
+	for i := range parts {
+		parts[i] = strings.TrimRight(c17Ws(parts[i]), " ")
+	}
+	return strings.Join(parts, "\r")
+}
+
+func c17Contexts(c *Ctx, d *c17Dump, x *c17M) error {
+	st := c.R.StartStage("entities-context", "every key of the live html.EntitiesMap as `&name;` and every row of the html reverse maps as `&#N;`/`&#xH;`, inside contexts (prefix ∈ "+strconv.Itoa(len(c17CtxPrefixes))+" × suffix ∈ "+strconv.Itoa(len(c17CtxSuffixes))+": all pairs for the entries whose replacement is a single character and for the reverse rows, prefix-only / suffix-only / diagonal for the others; plus every entry adjacent to "+strconv.Itoa(len(c17CtxGlue))+" glue references on either side), in a text node and in a quoted attribute value, through html.Minify; XML entities and reverse rows likewise through xml.Minify and svg.Minify; decoded text of input vs output by x/net/html (confirmed by the Lean decoder where Go deviates from the standard) / encoding/xml; non-trivial = the minifier rewrote the input")
+	st.Exhaustive = true
+	cands := []c17CtxCand{}
+	one := func(pre, ref, suf string, attr bool, what string, exact bool) {
+		var in string
+		if attr {
+			in = "<a title=\"" + pre + ref + suf + "\">k</a>"
+		} else {
+			in = "<p>" + pre + ref + suf + "</p>"
+		}
+		out, err, crash := x.run("text/html", in)
+		st.Count(in, out != in && out+"</p>" != in)
+		if crash != "" {
+			c.R.Add(h.Finding{Stage: st.Name, Kind: "crash", What: "html.Minify: " + crash, Input: strconv.Quote(in)})
+			return
+		}
+		if err != nil {
+			c.R.Add(h.Finding{Stage: st.Name, Kind: "fail", What: "html.Minify returns an error on " + what, Input: strconv.Quote(in), Impl: err.Error()})
+			return
+		}
+		if attr {
+			vi, fi := c17Attr(in, "a", "title")
+			vo, fo := c17Attr(out, "a", "title")
+			if !fi || !fo || vi != vo {
+				cands = append(cands, c17CtxCand{in, out, what, true, fmt.Sprintf("golang.org/x/net/html: attribute value before %q, after %q", vi, vo)})
+			}
+		} else {
+			ti, _ := c17Text(in)
+			to, _ := c17Text(out)
+			if (exact && c17WsKeepCR(ti) != c17WsKeepCR(to)) || (!exact && c17Ws(ti) != c17Ws(to)) {
+				cands = append(cands, c17CtxCand{in, out, what, false, fmt.Sprintf("golang.org/x/net/html: text before %q, after %q", ti, to)})
+			}
+		}
+	}
+	all := func(ref, what string, hot, exact bool, attrs []bool) {
+		for _, attr := range attrs {
+			st.Tag("ctx=" + map[bool]string{false: "text", true: "attr"}[attr])
+			if hot {
+				for _, p := range c17CtxPrefixes {
+					for _, sf := range c17CtxSuffixes {
+						one(p, ref, sf, attr, what, exact)
+					}
+				}
+			} else {
+				for i, p := range c17CtxPrefixes {
+					one(p, ref, "", attr, what, exact)
+					one(p, ref, c17CtxSuffixes[i%len(c17CtxSuffixes)], attr, what, exact)
+				}
+				for _, sf := range c17CtxSuffixes {
+					one("", ref, sf, attr, what, exact)
+					one("x", ref, sf, attr, what, exact)
+				}
+			}
+			for _, g := range c17CtxGlue {
+				one("", ref, g, attr, what, exact)
+				one("", g, ref, attr, what, exact)
+				one("&", ref, g, attr, what, exact)
+			}
+		}
+	}
+	names := make([]string, 0, len(html.EntitiesMap))
+	for k := range html.EntitiesMap {
+		names = append(names, k)
+	}
+	sort.Strings(names)
+	both := []bool{false, true}
+	for _, n := range names {
+		n := n
+		hot := c.Thorough() || len(html.EntitiesMap[n]) == 1
+		if crash := h.Safely(60*time.Second, func() { all("&"+n+";", "html.EntitiesMap["+n+"]", hot, false, both) }); crash != "" {
+			c.R.Add(h.Finding{Stage: st.Name, Kind: "crash", What: "html.Minify: " + crash, Input: strconv.Quote("&" + n + ";")})
+		}
+	}
+	for _, tb := range []struct {
+		name string
+		m    map[byte][]byte
+		attr bool
+	}{{"html.TextRevEntitiesMap", html.TextRevEntitiesMap, false}, {"html.AttrRevEntitiesMap", html.AttrRevEntitiesMap, true}} {
+		keys := []int{}
+		for b := range tb.m {
+			keys = append(keys, int(b))
+		}
+		sort.Ints(keys)
+		for _, bi := range keys {
+			for _, ref := range []string{"&#" + strconv.Itoa(bi) + ";", fmt.Sprintf("&#x%X;", bi)} {
+				ref, what := ref, fmt.Sprintf("%s[%q]", tb.name, byte(bi))
+				if crash := h.Safely(60*time.Second, func() { all(ref, what, true, true, []bool{tb.attr}) }); crash != "" {
+					c.R.Add(h.Finding{Stage: st.Name, Kind: "crash", What: "html.Minify: " + crash, Input: strconv.Quote(ref)})
+				}
+			}
+		}
+	}
+	// candidates: where Go's decoder is known to deviate from the standard the Lean decoder decides
+	lines := []string{}
+	idx := []int{}
+	for i, k := range cands {
+		if !c17GoDeviates.MatchString(k.in) && !c17GoDeviates.MatchString(k.out) {
+			continue
+		}
+		var ri, ro string
+		ok := true
+		if k.attr {
+			ri, _ = c17RawAttr(k.in)
+			ro, ok = c17RawAttr(k.out)
+		} else {
+			ri = strings.TrimSuffix(strings.TrimPrefix(k.in, "<p>"), "</p>")
+			ro = strings.TrimSuffix(strings.TrimPrefix(k.out, "<p>"), "</p>")
+			ok = strings.HasPrefix(k.out, "<p>") && !strings.Contains(ro, "<")
+		}
+		if !ok {
+			continue
+		}
+		cx := h.Int(0)
+		if k.attr {
+			cx = h.Int(1)
+		}
+		lines = append(lines, "spec.decodeRefs "+cx+" "+h.HexS(ri), "spec.decodeRefs "+cx+" "+h.HexS(ro))
+		idx = append(idx, i)
+	}
+	cleared := map[int]bool{}
+	if len(lines) > 0 {
+		rep, err := h.Eval(lines)
+		if err != nil {
+			return err
+		}
+		for k, i := range idx {
+			a, aok, _ := h.DecodeReply(rep[2*k])
+			b, bok, _ := h.DecodeReply(rep[2*k+1])
+			if aok && bok && (string(a) == string(b) || (!cands[i].attr && c17Ws(string(a)) == c17Ws(string(b)))) {
+				cleared[i] = true
+				st.Tag("cleared by the Lean decoder (Go oracle deviates from the standard)")
+			}
+		}
+	}
+	for i, k := range cands {
+		if cleared[i] {
+			continue
+		}
+		c.R.Add(h.Finding{Stage: st.Name, Kind: "fail", What: k.what + ": decodes to different text after minification (in context)",
+			Input: strconv.Quote(k.in), Impl: strconv.Quote(k.out), Model: k.model})
+	}
+
+	// XML: entities and reverse rows in context, through xml.Minify and svg.Minify
+	xrefs := map[string]bool{"&lt;": true, "&gt;": true, "&amp;": true, "&apos;": true, "&quot;": true}
+	for k := range xml.EntitiesMap {
+		xrefs["&"+k+";"] = true
+	}
+	for _, m := range []map[byte][]byte{xml.TextRevEntitiesMap, xml.AttrRevEntitiesMap} {
+		for b := range m {
+			xrefs["&#"+strconv.Itoa(int(b))+";"] = true
+			xrefs[fmt.Sprintf("&#x%X;", b)] = true
+		}
+	}
+	xpre := []string{"", "x", "&amp;", "&lt;", "&#38;", "&#x26;", "&amp;amp;", "&amp;#"}
+	xsuf := []string{"", "y", ";", "60;", "x3C;", "lt;", "amp;", "#60;", "abc", "=", "&#59;", "&#35;60;", "&amp;"}
+	for _, ref := range c17Sorted(xrefs) {
+		for _, p := range xpre {
+			for _, sf := range xsuf {
+				for _, mt := range []string{"text/xml", "image/svg+xml"} {
+					for _, attr := range []bool{false, true} {
+						var in string
+						body := p + ref + sf
+						switch {
+						case mt == "text/xml" && attr:
+							in = "<a b=\"" + body + "\">k</a>"
+						case mt == "text/xml":
+							in = "<a>" + body + "</a>"
+						case attr:
+							in = "<svg><text id=\"" + body + "\">k</text></svg>"
+						default:
+							in = "<svg><text>" + body + "</text></svg>"
+						}
+						a, aok := c17XMLw(in, true)
+						if !aok {
+							continue
+						}
+						var out string
+						var err error
+						var crash string
+						if cr := h.Safely(10*time.Second, func() { out, err, crash = x.run(mt, in) }); cr != "" {
+							crash = cr
+						}
+						st.Count(mt+" "+in, out != in)
+						st.Tag("xml")
+						if crash != "" {
+							c.R.Add(h.Finding{Stage: st.Name, Kind: "crash", What: mt + ": " + crash, Input: strconv.Quote(in)})
+							continue
+						}
+						if err != nil {
+							c.R.Add(h.Finding{Stage: st.Name, Kind: "fail", What: mt + ": minifier returns an error on a well-formed document", Input: strconv.Quote(in), Impl: err.Error()})
+							continue
+						}
+						b, bok := c17XMLw(out, true)
+						if !bok || a != b {
+							c.R.Add(h.Finding{Stage: st.Name, Kind: "fail", What: mt + ": reference " + ref + " decodes to different text after minification (in context, encoding/xml)",
+								Input: strconv.Quote(in), Impl: strconv.Quote(out), Model: a + " → " + b})
+						}
+					}
+				}
+			}
+		}
+	}
+	st.End()
+	return nil
 }
 
 // ---------- stage: XML entities ----------
@@ -1179,6 +1477,19 @@ func c17Search(c *Ctx, d *c17Dump, x *c17M) {
 						fail("optionalZeroDimension["+key+"]: the unit is dropped from a zero value but `"+key+"` is neither a length nor an angle unit", in, out, "")
 					}
 				}
+			case "zeroAngleFuncs":
+				in := "a{x:" + key + "(0deg)}"
+				out := run("text/css", in)
+				if !strings.Contains(out, "0deg") && !d.class["zeroAngleFunctions"][key] {
+					fail("zeroAngleFuncs["+key+"]: a zero angle loses its unit inside `"+key+"()`, whose grammar does not admit a bare 0 for an <angle>", in, out, "")
+				}
+			case "zeroAngleGuard", "angleDimension":
+				for _, in := range []string{"a{rotate:0" + key + "}", "a{font-style:oblique 0" + key + "}", "a{x:0" + key + "}"} {
+					out := run("text/css", in)
+					if !strings.Contains(out, "0"+key) && d.class["angleUnits"][key] {
+						fail("angleDimension: the angle unit `"+key+"` is dropped from a zero outside the functions that admit a bare 0 for an <angle>", in, out, "")
+					}
+				}
 			case "svgColorAttrs":
 				in := "<svg><rect " + key + "=\"black\"/></svg>"
 				out := run("image/svg+xml", in)
@@ -1214,6 +1525,9 @@ func runC17(c *Ctx) error {
 	c17Translator(c, d)
 	c17Behaviour(c, d, x)
 	c17Entities(c, d, x)
+	if err := c17Contexts(c, d, x); err != nil {
+		return err
+	}
 	c17XMLEntities(c, d, x)
 	c17Colours(c, d, x)
 	if err := c17SpecStage(c, d); err != nil {
